@@ -3,6 +3,7 @@ from __future__ import annotations
 
 import ast
 
+from ..anchors import is_incomplete
 from ..readerrules import READER, lemma_no_consume_on_failure, lemma_no_silent_clamp, lemma_reader_truth, stream_reader_uses
 from ..report import Finding, Run
 from ..sessrules import SESSION_CLASSES, common_coverage, exc_short, extraction, path_key, where
@@ -60,7 +61,7 @@ def residue_discipline(model: Model, run: Run, ex, fi) -> None:
             if not (isinstance(src, Sym) and src.name == "data"):
                 ok, why = False, f"no residue pending but the reader is built over {desc(src)}, not over the new data"
             elif p.outcome.kind == "return":
-                ne = [e for e in p.effects if e.kind == "mayraise" and str(e.b).endswith("NotEnougData")]
+                ne = [e for e in p.effects if e.kind == "mayraise" and is_incomplete(model, str(e.b))]
                 good = [a for a in assigns if desc(a.b) in (f"?bytearray(?remaining(?{r0.a}))", f"?bytes(?remaining(?{r0.a}))")]
                 if ne and not good:
                     ok, why = False, "an incomplete trailing message is not kept as residue (copy of the reader's remainder)"
@@ -211,7 +212,6 @@ def incomplete_is_only_waited_for(model: Model, run: Run, mr) -> None:
     consequence - wait.  A handler that catches it and raises something else for some contents (a size limit looked up in the
     partial header, a sanity check) makes the outcome depend on where the stream happened to be cut: the same message delivered
     whole is returned."""
-    from ..readerrules import NOT_ENOUGH
     from ..regions import decode_region
     from .c06 import wait_handlers
     region = list(decode_region(model))
@@ -236,17 +236,17 @@ def incomplete_is_only_waited_for(model: Model, run: Run, mr) -> None:
             if isinstance(t, ast.Try):
                 for h in t.handlers:
                     names = [] if h.type is None else (h.type.elts if isinstance(h.type, ast.Tuple) else [h.type])
-                    if any((model.resolve_name(f2.module, norm(n_)) or norm(n_)) == NOT_ENOUGH for n_ in names):
+                    if any(is_incomplete(model, model.resolve_name(f2.module, norm(n_)) or norm(n_)) for n_ in names):
                         handlers.append((t, h))
         for t, h in handlers:
             escs = mr.block(t.body, ctx)
-            stream_level = [e for e in escs if e.exc == NOT_ENOUGH and e.prov in good]
+            stream_level = [e for e in escs if is_incomplete(model, e.exc) and e.prov in good]
             if not stream_level:
                 continue
             n += 1
             others = [r for r in ast.walk(ast.Module(body=h.body, type_ignores=[])) if isinstance(r, ast.Raise) and r.exc is not None and
                       not (isinstance(r.exc, ast.Name) and r.exc.id == h.name) and
-                      model.resolve_name(f2.module, norm(r.exc.func if isinstance(r.exc, ast.Call) else r.exc)) != NOT_ENOUGH]
+                      not is_incomplete(model, model.resolve_name(f2.module, norm(r.exc.func if isinstance(r.exc, ast.Call) else r.exc)))]
             run.ob("L10-incomplete-unit-is-only-waited-for", not others, {"function": f2.qualname.split("sansldap.")[-1], "handler_line": h.lineno})
             for r in others[:1]:
                 run.fail(Finding("L10-incomplete-unit-is-only-waited-for", f2.qualname, norm(r)[:80],
